@@ -1023,6 +1023,16 @@ def case_producer(prog, which, A, taint_mode="abort"):
     elif which == "full_like":
         kind, r = run_guarded(lambda: it.call(it.get_attr(FA, "full_like"), [x, k], {}))
         exp = ("sym", "k")
+    elif which in ("full-ndarray", "full_like-ndarray"):
+        # fill_value: an ndarray that already has the full shape (the values of another array): the result holds its entries, in memory of its own
+        z = w.array("z", A)
+        inputs.append(z)
+        snaps = w.snap(*inputs)
+        if which == "full-ndarray":
+            kind, r = run_guarded(lambda: it.call(it.get_attr(FA, "full"), [ds, z.f["values"]], {}))
+        else:
+            kind, r = run_guarded(lambda: it.call(it.get_attr(FA, "full_like"), [x, z.f["values"]], {}))
+        exp = leaf_term("z", A, w)
     elif which == "from_dims_superset":
         sup = w.dimset(tuple(A) + ("e",))
         inputs.append(sup)
@@ -1102,7 +1112,8 @@ def producer_cases(prog, alpha, taint_mode="abort"):
     for A in lists_over(alpha):
         if len(A) > 3:
             continue
-        for which in ("copy", "full", "full_like", "from_dims_superset", "apply", "apply-inplace", "abs-inplace", "sign-inplace"):
+        for which in ("copy", "full", "full_like", "from_dims_superset", "apply", "apply-inplace", "abs-inplace", "sign-inplace") + \
+                (("full-ndarray", "full_like-ndarray") if A else ()):
             yield lambda which=which, A=A: case_producer(prog, which, A, taint_mode)
     yield lambda: case_producer(prog, "scalar", (), taint_mode)
 
